@@ -101,6 +101,14 @@ Section C08.
     In f (snd ts) -> alookup f t <> None -> cts_valid ts t = false.
   Proof. exact appeared_file_invalidates. Qed.
 
+  (* a run with --info-export never reads the cache; the first run after the cache file of its mode was
+     damaged (truncated by a kill inside its write, a full disk) is not served from it either *)
+  Theorem C08_info_export_never_hits : forall a k w, ca_info a = true -> forall r, snd (crun H EV bd store a k w) <> OHit r.
+  Proof. exact (info_export_never_hits H EV bd store). Qed.
+  Theorem C08_damaged_cache_never_hits : forall a k (w : world), forall r,
+    snd (crun H EV bd store a k (cstep H EV bd store w (Corrupt (cis_local a)))) <> OHit r.
+  Proof. exact (damaged_cache_never_hits H EV bd store). Qed.
+
   (* An unchanged project with an identical command line is served from the cache. *)
   Theorem C08_identical_command_line_hits : forall a (w w1 : world) r, ca_info a = false ->
     crun H EV bd store a 0 w = (w1, ORegen r) -> exists k, crun H EV bd store a k w1 = (w1, OHit (cview a r)).
@@ -121,6 +129,8 @@ Print Assumptions C08_never_after_change.
 Print Assumptions C08_changed_file_invalidates.
 Print Assumptions C08_appeared_file_invalidates.
 Print Assumptions C08_identical_command_line_hits.
+Print Assumptions C08_info_export_never_hits.
+Print Assumptions C08_damaged_cache_never_hits.
 Print Assumptions C08_load_frame.
 
 (* The order of operations of the pinned tree (stale cache kept while the ninja file is rewritten,
